@@ -359,10 +359,13 @@ impl Inner {
                     }
                 }
             }
-            EnvEvent::Repair { path } => {
+            EnvEvent::Repair { path, keep_mtime } => {
                 self.advance_clock(1);
                 let p = PathBuf::from(path);
-                self.repair_one(&p)
+                if *keep_mtime {
+                    *self.stats.env_events.entry("repair-keeping-old-mtime".to_string()).or_insert(0) += 1;
+                }
+                self.repair_one(&p, *keep_mtime)
             }
             EnvEvent::RepairAll => {
                 self.advance_clock(1);
@@ -370,7 +373,7 @@ impl Inner {
                 keys.sort();
                 let mut n = 0;
                 for k in keys {
-                    self.repair_one(&k);
+                    self.repair_one(&k, false);
                     n += 1;
                 }
                 format!("repaired={}", n)
@@ -437,12 +440,14 @@ impl Inner {
         outcome
     }
 
-    fn repair_one(&mut self, p: &Path) -> String {
+    fn repair_one(&mut self, p: &Path, keep_mtime: bool) -> String {
         let now = self.now_ms;
         match self.saved.remove(p) {
             None => "nothing-to-repair".to_string(),
             Some(Saved::File(Some(e))) => {
-                let _ = self.fs.write(p, e.bytes.clone(), now, None);
+                // keep_mtime: the backup's own (older) time stamp comes back with the content
+                let stamp = if keep_mtime { e.mtime_ms } else { now };
+                let _ = self.fs.write(p, e.bytes.clone(), stamp, None);
                 self.fs.mark_pristine(p);
                 "repaired".to_string()
             }
